@@ -69,10 +69,105 @@ def run(ctx):
     rules.append(r3)
     r4 = c13.column_order_rule(ctx, "C08", "C08.R4", {k: v for k, v in c13.COLUMN_SETS.items() if "label" in k or "hint" in k or "image" in k})
     r4.title = "which language a cell lands under does not depend on column order"
+    from .c12 import spacer_column_obligations
+    spacer_column_obligations(ctx, r4, "C08.R4")
     rules.append(r4)
     r5 = Rule("C08", "C08.R5", "unsuffixed cells are grouped under the survey's default language", floor=10,
               necessary="two different resolutions of the default language file the unsuffixed texts under a language that is not the default")
     _take(r5, r11, "C11.R3", lambda c: c.startswith("grouping language["))
     _take(r5, r11, "C11.R6", lambda c: True)
     rules.append(r5)
+    rules.append(_loop_template_rule(ctx))
+    rules.append(_recollect_rule(ctx))
     return rules
+
+
+def _recollect_rule(ctx):
+    """A Survey object may be rendered, edited and rendered again (the builder API): the texts shown are the ones the
+    tree carries at the time of each render.  The collectors are evaluated, a label / hint / choice label is edited,
+    and they are evaluated again on the same object: every language must now be given the new text."""
+    from ..interp import Obj, Raised
+    from .c07 import _hooks, _mk
+    repo = ctx.repo
+    r = Rule("C08", "C08.R7", "texts are collected afresh on every render of the same survey object", floor=4,
+             necessary="texts memoised from an earlier render keep showing every language the text that was edited away")
+    scls = repo.cls("pyxform.survey:Survey")
+    qcls = repo.cls("pyxform.question:InputQuestion")
+    ocls = repo.cls("pyxform.question:Option")
+    icls = repo.cls("pyxform.question:Itemset")
+    xp = {"q1": "/data/q1", "data": "/data"}
+    it = ctx.interp("C08.R7", hooks=_hooks(xp))
+    it.reset([])
+    rd = it.call(it.module_global(repo.module("pyxform.survey"), "recursive_dict"), [], {}, None)
+    q = _mk(ctx, qcls, "q1", label={"en": "Old label", "fr": "Vieux"}, hint={"en": "Old hint"}, media=None, guidance_hint=None, type="text", bind={"type": "string"}, control={"tag": "input"})
+    opts = tuple(_mk(ctx, ocls, f"o{i}", label={"en": f"Old {i}"}, media=None) for i in range(2))
+    iset = Obj(icls, {"name": "lst", "options": opts, "requires_itext": True, "used_by_search": False}, name="itemset")
+    s = _mk(ctx, scls, "data", children=[q], default_language="default", choices={"lst": iset}, _translations=rd, type="survey", setvalues_by_triggering_ref={}, setgeopoint_by_triggering_ref={})
+    q.attrs["parent"] = s
+
+    def collect():
+        it.call_function(scls.methods["_setup_translations"], [s], {}, None, None)
+        it.call_function(scls.methods["_setup_media"], [s], {}, None, None)
+        it.call_function(scls.methods["_add_empty_translations"], [s], {}, None, None)
+        return s.attrs["_translations"]
+
+    def shown(tr, lang, path, form="long"):
+        v = ((tr.get(lang) or {}).get(path) or {}).get(form)
+        return v.get("text") if isinstance(v, dict) else v
+
+    try:
+        t1 = collect()
+        first = (shown(t1, "en", "/data/q1:label"), shown(t1, "en", "/data/q1:hint"), shown(t1, "en", "lst-0"))
+        q.attrs["label"] = {"en": "New label", "fr": "Nouveau"}
+        q.attrs["hint"] = {"en": "New hint"}
+        opts[0].attrs["label"] = {"en": "New 0"}
+        t2 = collect()
+        second = (shown(t2, "en", "/data/q1:label"), shown(t2, "fr", "/data/q1:label"), shown(t2, "en", "/data/q1:hint"), shown(t2, "en", "lst-0"), shown(t2, "en", "lst-1"))
+    except Raised as e:
+        r.fail("collect / edit / collect", f"collectors evaluate ({e.exc_name}{e.exc_args})", scls.methods["_setup_translations"].loc())
+        return r
+    r.check(first == ("Old label", "Old hint", "Old 0"), "first render", "the first collection registers the texts of the tree", scls.methods["_setup_translations"].loc(), why_fail=repr(first))
+    for what, got, want in (("question label [en]", second[0], "New label"), ("question label [fr]", second[1], "Nouveau"), ("question hint [en]", second[2], "New hint"),
+                            ("choice label [en]", second[3], "New 0"), ("untouched choice label [en]", second[4], "Old 1")):
+        r.check(got == want, f"second render: {what}", f"shows {want!r}, the text the tree carries now", scls.methods["_setup_translations"].loc(), why_fail=f"shows {got!r}")
+    return r
+
+
+def _loop_template_rule(ctx):
+    """`begin loop over <list>`: each child's texts are templates filled per choice.  With per-language choice labels the
+    text of language L must be filled with the choice's label in L (and the name with the choice's name), for every
+    language, and the caller's template and choice must come out unchanged."""
+    import copy
+    from ..interp import Raised
+    r = Rule("C08", "C08.R6", "loop templates are filled per language with that language's choice label", floor=6,
+             necessary="a substitution table shared between languages shows every language the last language's choice label")
+    fn = ctx.func("pyxform.builder:SurveyElementBuilder._name_and_label_substitutions", "C08.R6")
+    cases = {
+        "two languages": ({"name": "%(name)s_count", "type": "integer", "label": {"en": "How many %(label)s?", "fr": "Combien de %(label)s ?"}, "hint": {"en": "count %(label)s", "fr": "compter %(label)s"}},
+                          {"name": "apple", "label": {"en": "apples", "fr": "pommes"}}),
+        "three languages, template lacks one": ({"name": "q_%(name)s", "label": {"en": "E %(label)s", "es": "S %(label)s"}},
+                                               {"name": "b", "label": {"en": "eb", "fr": "fb", "es": "sb"}}),
+        "plain choice label": ({"name": "%(name)s_n", "label": {"en": "How many %(label)s?", "fr": "Combien de %(label)s ?"}}, {"name": "pear", "label": "pears"}),
+        "plain template": ({"name": "%(name)s_n", "label": "Number of %(name)s"}, {"name": "fig", "label": {"en": "figs", "fr": "figues"}}),
+    }
+    for desc, (tmpl, choice) in cases.items():
+        t0, c0 = copy.deepcopy(tmpl), copy.deepcopy(choice)
+        it = ctx.interp("C08.R6")
+        it.reset([])
+        try:
+            out = it.call_function(fn, [tmpl, choice], {}, None, fn.node)
+        except Raised as e:
+            r.fail(f"loop template[{desc}]", f"substitution evaluates ({e.exc_name}{e.exc_args})", fn.loc())
+            continue
+        want = {}
+        for k, v in t0.items():
+            if isinstance(v, str):
+                want[k] = v % c0
+            elif isinstance(v, dict):
+                want[k] = {lang: text % ({"name": c0["name"], "label": c0["label"][lang]} if isinstance(c0["label"], dict) and lang in c0["label"] else c0) for lang, text in v.items()}
+            else:
+                want[k] = v
+        r.check(out == want, f"loop template[{desc}]", "every language's text is filled with that language's choice label", fn.loc(), why_fail=f"got {out!r}, expected {want!r}")
+        r.check(tmpl == t0 and choice == c0, f"loop template[{desc}]:inputs", "the shared template and the choice are left unchanged (they are reused for the next choice)", fn.loc(),
+                why_fail=f"template now {tmpl!r}")
+    return r
